@@ -23,11 +23,14 @@ Offer(s) ==
     [] s.st = "dd"      -> IF Mode = "evdeep" THEN {"e"} ELSE {"e", "a", ":"}
     [] s.st = "ev_open" -> IF Mode = "evdeep" THEN {"{"} ELSE {"{", "a"}
     [] s.st = "ev_n1"   -> IF Mode = "evdeep" THEN (IF s.n1 = <<>> THEN {"0", "1", "2"} ELSE {","})
+                           ELSE IF s.hg THEN {","}
                            ELSE {"0", "1", "2", ",", "a", "}", "H32m", "H64"}
     [] s.st = "ev_n2"   -> IF Mode = "evdeep" THEN (IF s.n2 = <<>> THEN {"0", "1", "3"} ELSE {"}"})
+                           ELSE IF s.hg /\ s.n2 # <<>> THEN {"}"}
                            ELSE {"0", "1", "3", "}", ",", "a", "H32m", "H32", "H63"}
     [] s.st = "ev_colon" -> IF Mode = "evdeep" THEN {":"} ELSE {":", "|"}
     [] s.st = "ev_title" -> {"a", "|", ":", Esc, " "}
+    [] s.st = "ev_hbody" -> {"a", "|"}
     [] s.st = "ev_sep"  -> {"|", "a"}
     [] s.st = "ev_text" -> {"b", "|", Esc, "#", ","}
     [] s.st = "ev_attrs" -> {"|", "a"}
